@@ -21,9 +21,9 @@ func (c10) ID() string { return "C10" }
 
 func c10Seqs(tier string) []*gen.TokSeqs {
 	if tier == "thorough" {
-		return []*gen.TokSeqs{gen.NewTokSeqs(gen.Sigma, 5), gen.NewTokSeqs(gen.SigmaSmall, 7), gen.NewTokSeqs(gen.SigmaRange, 7)}
+		return []*gen.TokSeqs{gen.NewTokSeqs(gen.Sigma, 5), gen.NewTokSeqs(gen.SigmaSmall, 7), gen.NewTokSeqs(gen.SigmaRange, 7), gen.NewTokSeqs(gen.SigmaTiny, 9)}
 	}
-	return []*gen.TokSeqs{gen.NewTokSeqs(gen.Sigma, 4), gen.NewTokSeqs(gen.SigmaSmall, 5), gen.NewTokSeqs(gen.SigmaRange, 5)}
+	return []*gen.TokSeqs{gen.NewTokSeqs(gen.Sigma, 4), gen.NewTokSeqs(gen.SigmaSmall, 5), gen.NewTokSeqs(gen.SigmaRange, 5), gen.NewTokSeqs(gen.SigmaTiny, 7)}
 }
 
 // seqPlan lays several token-sequence spaces, a tree block and a fuzz block over batch numbers.
@@ -33,6 +33,7 @@ type seqPlan struct {
 	nSeq    int
 	nTree   int
 	nFuzz   int
+	nFrag   int
 	space   *qt.Space
 }
 
@@ -47,13 +48,15 @@ func newSeqPlan(tier string, fuzzQuick, fuzzThorough int) *seqPlan {
 	p.space = qt.NewSpace(qt.QuickLeaves())
 	p.nTree = nBatches(p.space.Size())
 	p.nFuzz = fuzzQuick
+	p.nFrag = 6
 	if tier == "thorough" {
 		p.nFuzz = fuzzThorough
+		p.nFrag = 120
 	}
 	return p
 }
 
-func (p *seqPlan) total() int { return p.nSeq + p.nTree + p.nFuzz }
+func (p *seqPlan) total() int { return p.nSeq + p.nTree + p.nFuzz + p.nFrag }
 
 // each calls fn for every input of the batch. kind names the generator.
 func (p *seqPlan) each(ctx *core.Ctx, batch int, fn func(kind, in string)) {
@@ -72,6 +75,17 @@ func (p *seqPlan) each(ctx *core.Ctx, batch int, fn func(kind, in string)) {
 		lo, hi := batchRange(p.space.Size(), batch-p.nSeq)
 		for i := lo; i < hi; i++ {
 			fn("tree", qt.Print(p.space.At(i), qt.Style{}))
+		}
+	case batch >= p.nSeq+p.nTree+p.nFuzz:
+		// random sequences of well-formed fragments (longer than the exhaustive bound)
+		r := ctx.Rand("fragments")
+		for i := 0; i < 3000; i++ {
+			n := 1 + r.Intn(10)
+			parts := make([]string, n)
+			for k := range parts {
+				parts[k] = gen.Fragments[r.Intn(len(gen.Fragments))]
+			}
+			fn("fragments", strings.Join(parts, " "))
 		}
 	default:
 		r := ctx.Rand("fuzz")
